@@ -201,57 +201,101 @@ def keys(ctx, am):
     r.check(a['ret'] == b['ret'] == 'frozenset(tuple(kwargs.items()))', 'both keys have the same container shape', lk, construct='xtuml.meta:Link',
             key='shape', msg='key shapes differ: %s vs %s' % (a['ret'], b['ret']))
     # populate_connections
-    pc = repo.func(LD + '.populate_connections')
+    # populate_connections, read in normal form (aliases and temporaries folded, guards canonical)
+    pc = repo.nfunc(LD + '.populate_connections')
     Q = LD + '.populate_connections'
-    cls_role = {}
-    for n in ast.walk(pc):
-        m = pm.match('_V = ass._F.to_metaclass', n) if isinstance(n, ast.Assign) else None
-        if m:
-            cls_role[m['_V'].id] = am.links[m['_F']]['to']
     outer = [n for n in pc.body if isinstance(n, ast.For) and src(n.iter) == 'metamodel.associations']
-    if len(outer) != 1:
+    if len(outer) != 1 or not isinstance(outer[0].target, ast.Name):
         raise AnalysisError('%s: association loop not found' % loc(pc))
+    A = outer[0].target.id
     idx_calls = [n for n in ast.walk(pc) if isinstance(n, ast.Call) and call_attr(n) == 'compute_index_key']
     lk_calls = [n for n in ast.walk(pc) if isinstance(n, ast.Call) and call_attr(n) == 'compute_lookup_key']
-    r.check(len(idx_calls) == 1 and len(lk_calls) == 1 and src(idx_calls[0].func.value) == src(lk_calls[0].func.value),
-            'index and probe use the same directed link (%s)' % (src(idx_calls[0].func.value) if idx_calls else '?'), pc, construct=Q, key='same-link',
-            msg='populate_connections indexes with %s but probes with %s' % ([src(c.func.value) for c in idx_calls], [src(c.func.value) for c in lk_calls]))
+    if len(idx_calls) != 1 or len(lk_calls) != 1:
+        raise AnalysisError('%s: expected one compute_index_key and one compute_lookup_key call, found %d / %d' % (loc(pc), len(idx_calls), len(lk_calls)))
+
+    def link_field(call):
+        m = pm.match('%s._F._M(_I)' % A, call)
+        return m['_F'] if m else None
+    fi, fl = link_field(idx_calls[0]), link_field(lk_calls[0])
+    if fi is None or fl is None:
+        raise AnalysisError('%s: key computations are not made on a link of the association loop variable' % loc(pc))
+    r.check(fi == fl, 'index and probe use the same directed link (%s)' % fi, pc, construct=Q, key='same-link',
+            msg='populate_connections indexes with %s but probes with %s' % (fi, fl))
+
+    def enclosing_for(call):
+        cur = call
+        while cur is not None and not (isinstance(cur, ast.For) and isinstance(cur.target, ast.Name) and call.args and
+                                       cur.target.id == src(call.args[0])):
+            cur = getattr(cur, '_parent', None)
+        return cur
 
     def loop_class(call):
-        cur = call
-        while cur is not None and not (isinstance(cur, ast.For) and isinstance(cur.target, ast.Name) and
-                                       cur.target.id == src(call.args[0])):
-            cur = cur._parent
-        if cur is None:
+        lp = enclosing_for(call)
+        if lp is None:
             return None
-        m = pm.match('_C.storage', cur.iter)
-        return cls_role.get(m['_C'].id) if m and isinstance(m['_C'], ast.Name) else None
-    if idx_calls and lk_calls:
-        field = idx_calls[0].func.value.attr
-        # key_map of that link: keys = attributes of its `to` class instances? key_map = dict(zip(A, B)): lookup reads A on the probing
-        # instance, index reads B on the indexed instance
-        km = am.key_maps.get(field)
-        keys_owner = {'source_keys': 'SRC', 'target_keys': 'TGT'}
-        want_probe, want_index = keys_owner[km[0]], keys_owner[km[1]]
-        r.check(loop_class(lk_calls[0]) == want_probe, 'probing instances are those holding %s (%s class)' % (km[0], want_probe), lk_calls[0],
-                construct=Q, key='probe-class', msg='populate_connections probes with instances of the %s class, but %s.key_map is keyed by %s'
-                % (loop_class(lk_calls[0]), field, km[0]))
-        r.check(loop_class(idx_calls[0]) == want_index, 'indexed instances are those holding %s (%s class)' % (km[1], want_index), idx_calls[0],
-                construct=Q, key='index-class', msg='populate_connections indexes instances of the %s class, but %s.key_map values are %s'
-                % (loop_class(idx_calls[0]), field, km[1]))
-    # every element of the bucket is connected, nulls are skipped, missing buckets are skipped
-    ok = any(isinstance(n, ast.For) and src(n.iter) == 'storage[target_class][link_key][inst_key]' and
-             sum(1 for c in ast.walk(n) if isinstance(c, ast.Call) and call_attr(c) == 'connect') == 2 for n in ast.walk(pc))
+        m = pm.match('%s._F.to_metaclass.storage' % A, lp.iter)
+        return am.links[m['_F']]['to'] if m and m['_F'] in am.links else None
+    field = fi
+    km = am.key_maps.get(field)
+    keys_owner = {'source_keys': 'SRC', 'target_keys': 'TGT'}
+    want_probe, want_index = keys_owner[km[0]], keys_owner[km[1]]
+    r.check(loop_class(lk_calls[0]) == want_probe, 'probing instances are those holding %s (%s class)' % (km[0], want_probe), lk_calls[0],
+            construct=Q, key='probe-class', msg='populate_connections probes with instances of the %s class, but %s.key_map is keyed by %s'
+            % (loop_class(lk_calls[0]), field, km[0]))
+    r.check(loop_class(idx_calls[0]) == want_index, 'indexed instances are those holding %s (%s class)' % (km[1], want_index), idx_calls[0],
+            construct=Q, key='index-class', msg='populate_connections indexes instances of the %s class, but %s.key_map values are %s'
+            % (loop_class(idx_calls[0]), field, km[1]))
+    # the key variables
+    def key_var(call):
+        st = call
+        while st is not None and not isinstance(st, ast.stmt):
+            st = getattr(st, '_parent', None)
+        if isinstance(st, ast.Assign) and len(st.targets) == 1 and isinstance(st.targets[0], ast.Name) and st.value is call:
+            return st.targets[0].id
+        return None
+    ki, kl = key_var(idx_calls[0]), key_var(lk_calls[0])
+    if ki is None or kl is None:
+        raise AnalysisError('%s: the computed keys are not bound to a variable' % loc(pc))
+    probe_loop, index_loop = enclosing_for(lk_calls[0]), enclosing_for(idx_calls[0])
+    if probe_loop is None or index_loop is None:
+        raise AnalysisError('%s: instance loops around the key computations not found' % loc(pc))
+    # every element of the bucket is connected in both directions
+    connect_loops = [n for n in ast.walk(probe_loop) if isinstance(n, ast.For) and n is not probe_loop and
+                     any(isinstance(c, ast.Call) and call_attr(c) == 'connect' for c in ast.walk(n))]
+    ok = len(connect_loops) == 1 and isinstance(connect_loops[0].iter, ast.Subscript) and src(connect_loops[0].iter.slice) == kl and \
+        sum(1 for c in ast.walk(connect_loops[0]) if isinstance(c, ast.Call) and call_attr(c) == 'connect') == 2 and \
+        not any(isinstance(x, (ast.If, ast.Break, ast.Continue, ast.Return)) for x in ast.walk(connect_loops[0]))
     r.check(ok, 'every instance of the matching bucket is connected in both directions', pc, construct=Q, key='bucket',
-            msg='populate_connections does not connect every element of storage[...][inst_key] on both links')
-    skips = [src(n.test) for n in ast.walk(outer[0]) if isinstance(n, ast.If) and len(n.body) == 1 and isinstance(n.body[0], ast.Continue)]
-    r.check(sorted(skips) == sorted(['inst_key is None', 'inst_key is None', 'inst_key not in storage[target_class][link_key]']),
+            msg='populate_connections does not connect every element of the bucket <index>[%s] on both links' % kl)
+    bucket_index = src(connect_loops[0].iter.value) if ok else None
+    # skip conditions: a null key (both loops) and an absent bucket (probe loop); nothing else
+    def skips_of(loop):
+        out = []
+        for n in ast.walk(loop):
+            if isinstance(n, ast.If) and n.body and isinstance(n.body[-1], ast.Continue) and len(n.body) == 1:
+                vals = n.test.values if isinstance(n.test, ast.BoolOp) and isinstance(n.test.op, ast.Or) else [n.test]
+                out.extend(src(v) for v in vals)
+        return sorted(out)
+    s_index = skips_of(index_loop)
+    s_probe = [x for x in skips_of(probe_loop)]
+    want_index_skips = ['%s is None' % ki]
+    want_probe_skips = sorted(['%s is None' % kl, '%s not in %s' % (kl, bucket_index)])
+    r.check(s_index == want_index_skips and s_probe == want_probe_skips,
             'the only skip conditions are a null key and an absent bucket', pc, construct=Q, key='skips',
-            msg='populate_connections skips on %s' % skips)
-    ok = any(isinstance(n, ast.Assign) and src(n.targets[0]) == 'link_key' and src(n.value) == 'frozenset(ass.source_link.key_map.values())'
-             for n in ast.walk(pc))
+            msg='populate_connections skips indexed instances on %s and probing instances on %s; expected %s and %s'
+                % (s_index, s_probe, want_index_skips, want_probe_skips))
+    # other conditional execution around the connect loop would drop links as well
+    cur = connect_loops[0]._parent if ok else None
+    extra = []
+    while cur is not None and cur is not probe_loop:
+        if isinstance(cur, ast.If):
+            extra.append(src(cur.test))
+        cur = getattr(cur, '_parent', None)
+    r.check(not extra, 'the connect loop runs for every probing instance that passed the skip conditions', pc, construct=Q, key='extra-guard',
+            msg='the connect loop of populate_connections is additionally guarded by %s' % extra)
+    ok = pm.contains('frozenset(%s.%s.key_map.values())' % (A, field), pc)
     r.check(ok, 'a shared index is keyed by the set of indexed attribute names', pc, construct=Q, key='index-key',
-            msg='the per-class index is no longer keyed by frozenset(ass.source_link.key_map.values())')
+            msg='the per-class index is no longer keyed by frozenset(%s.%s.key_map.values())' % (A, field))
     # _is_null table
     from .. import absint
     import itertools
@@ -304,7 +348,7 @@ def new_rule(ctx, am):
     repo = ctx.repo
     r = ctx.rule('C03-NEW', 'API creation with referential values resolves links exactly as the loader does', floor=5,
                  oracle='_find_link semantics (C02-SWAP): a link taken from <metaclass>.links leads from an instance of that metaclass')
-    fn = repo.func('xtuml.meta:MetaClass.new')
+    fn = repo.nfunc('xtuml.meta:MetaClass.new')      # normal form: temporaries folded, guards canonical
     Q = 'xtuml.meta:MetaClass.new'
     inst = None
     for st in body_without_doc(fn):
@@ -312,29 +356,59 @@ def new_rule(ctx, am):
         if m:
             inst = m['_I'].id
     loops = [n for n in walk_local(fn) if isinstance(n, ast.For) and src(n.iter) == 'self.links.values()']
-    if len(loops) != 1 or inst is None:
+    if len(loops) != 1 or inst is None or not isinstance(loops[0].target, ast.Name):
         raise AnalysisError('%s: batch relate loop of MetaClass.new not found' % loc(fn))
     lp = loops[0]
     lv = lp.target.id
-    skip = [n for n in lp.body if isinstance(n, ast.If) and len(n.body) == 1 and isinstance(n.body[0], ast.Continue)]
-    ok = any(src(s.test) == 'set(%s.key_map.values()) - set(referential_attributes.keys())' % lv for s in skip)
-    allowed_skips = {'set(%s.key_map.values()) - set(referential_attributes.keys())' % lv, 'not kwargs'}
-    for s_ in skip:
-        r.check(src(s_.test) in allowed_skips, 'batch relate skip `%s` is one of the two structural ones' % src(s_.test), s_, construct=Q,
-                key='extra-skip ' + src(s_.test),
+    # the query: {partner attribute: supplied referential value} over the link's key map
+    qvar = ra = None
+    for n in ast.walk(lp):
+        if isinstance(n, ast.Assign) and len(n.targets) == 1 and isinstance(n.targets[0], ast.Name):
+            m = pm.match('{_K: _RA[_V] for _K, _V in %s.key_map.items()}' % lv, n.value)
+            if m and isinstance(m['_RA'], ast.Name):
+                qvar, ra = n.targets[0].id, m['_RA'].id
+    r.check(qvar is not None, 'the partner is looked up by {partner attribute: supplied referential value}', lp, construct=Q, key='query-keys',
+            msg='MetaClass.new does not build the partner query as kwargs[key] = referential_attributes[value] over link.key_map.items()')
+    if qvar is None:
+        raise AnalysisError('%s: query of the batch relate not found' % loc(lp))
+    skip_tests = []
+    for n in lp.body:
+        if isinstance(n, ast.If) and len(n.body) == 1 and isinstance(n.body[0], ast.Continue):
+            vals = n.test.values if isinstance(n.test, ast.BoolOp) and isinstance(n.test.op, ast.Or) else [n.test]
+            skip_tests.extend((v, n) for v in vals)
+    from .. import normal
+
+    def resolved(e):
+        '''test with once-assigned pure locals replaced by their values (a loop-invariant sub-expression may be hoisted)'''
+        single = {}
+        for n in ast.walk(fn):
+            if isinstance(n, ast.Assign) and len(n.targets) == 1 and isinstance(n.targets[0], ast.Name) and normal.is_pure(n.value):
+                single.setdefault(n.targets[0].id, []).append(n.value)
+        stores = {}
+        for n in ast.walk(fn):
+            if isinstance(n, ast.Name) and isinstance(n.ctx, ast.Store):
+                stores[n.id] = stores.get(n.id, 0) + 1
+        mapping = {k: v[0] for k, v in single.items() if len(v) == 1 and stores.get(k) == 1 and k not in (qvar, ra)}
+        if not mapping:
+            return e
+        return normal._Expr().visit(normal._Subst(mapping).visit(normal.clone(e)))
+    skip_tests = [(resolved(t), n) for t, n in skip_tests]
+    covered = 'set(%s.key_map.values()) - set(%s.keys())' % (lv, ra)
+    allowed_skips = {covered, 'not %s' % qvar}
+    ok = any(src(t) == covered for t, _ in skip_tests)
+    for t, s_ in skip_tests:
+        r.check(src(t) in allowed_skips, 'batch relate skip `%s` is one of the two structural ones' % src(t), s_, construct=Q,
+                key='extra-skip ' + src(t),
                 msg='MetaClass.new skips the batch relate under `%s`: links are determined by the keys alone (a supplied referential value such as 0 '
-                    'or False is a value, not an absent key), so this loses links that loading the same rows creates' % src(s_.test))
+                    'or False is a value, not an absent key), so this loses links that loading the same rows creates' % src(t))
     r.check(ok, 'a link is used only when all of its referential attributes were supplied', lp, construct=Q, key='covered',
             msg='MetaClass.new no longer skips links whose key_map values are not all among the supplied referential attributes')
-    ok = any(isinstance(n, ast.For) and src(n.iter) == '%s.key_map.items()' % lv and
-             pm.match(['kwargs[_K] = referential_attributes[_V]'], n.body) is not None and
-             [e.id for e in n.target.elts] == [pm.match(['kwargs[_K] = referential_attributes[_V]'], n.body)['_K'].id,
-                                               pm.match(['kwargs[_K] = referential_attributes[_V]'], n.body)['_V'].id]
-             for n in ast.walk(lp))
-    r.check(ok, 'the partner is looked up by {partner attribute: supplied referential value}', lp, construct=Q, key='query-keys',
-            msg='MetaClass.new does not build the partner query as kwargs[key] = referential_attributes[value] over link.key_map.items()')
+    # nothing else makes the batch relate conditional
+    others = [src(n.test) for n in lp.body if isinstance(n, ast.If) and not (len(n.body) == 1 and isinstance(n.body[0], ast.Continue))]
+    r.check(not others, 'the batch relate of a covered link is unconditional', lp, construct=Q, key='extra-guard',
+            msg='MetaClass.new makes the batch relate depend on %s' % others)
     calls = [n for n in ast.walk(lp) if isinstance(n, ast.Call) and dotted(n.func) == 'relate']
-    qloops = [n for n in ast.walk(lp) if isinstance(n, ast.For) and src(n.iter) == '%s.to_metaclass.query(kwargs)' % lv]
+    qloops = [n for n in ast.walk(lp) if isinstance(n, ast.For) and src(n.iter) == '%s.to_metaclass.query(%s)' % (lv, qvar)]
     r.check(len(qloops) == 1, 'partners are the instances of the link\'s to-class matching the query', lp, construct=Q, key='query',
             msg='MetaClass.new does not query %s.to_metaclass with the built key' % lv)
     if len(calls) != 1 or not qloops:
